@@ -4,7 +4,8 @@
    exact rational value of the float64 argument, ki = floor k.  [binom] is Pascal's triangle,
    [bterm p q n k] = C(n,k) p^k q^(n-k), [Qsum_range f lo hi] = sum of f over the integers lo..hi. *)
 From MM Require Import Base.Num Base.GFSum Base.GFComb Model.Choose Model.Binom Model.Hyperg
-                       Proofs.Choose Proofs.Binom Proofs.Hyperg Check.C06 Proofs.C06Table.
+                       Proofs.Choose Proofs.Binom Proofs.Hyperg Check.C06 Proofs.C06Table
+                       Spec.C06Prob Proofs.CheckC06.
 From Coq Require Import Qround.
 Local Open Scope Q_scope.
 
@@ -170,6 +171,55 @@ Proof.
 Qed.
 Print Assumptions C06_comparator_hypergeometric.
 
+(* ---------- what an accepted verdict of check_C06 certifies ---------- *)
+(* check_C06 = parse (p_line) then compare (check_case).  If the verdict is accepted (code 0 = ok; code 1 =
+   borderline is never produced by this check: there is no borderline window) then the decoded case [cs]
+   satisfies [case_ok] (Proofs/CheckC06.v), which mentions only observed numbers and Spec/C06Prob.v:
+   - a line on which a call panicked is never accepted;
+   - binomial (N = b_n, P = b_p): 0 <= N, 0 <= P <= 1; with pr k = bin_prob N P k = C(N,k) P^k (1-P)^(N-k)
+     (Pascal's C; 0 outside 0..N): Mean and NormalApprox.Mu are finite floats within tol_moment_rel
+     (= 8 ulp53, relative) of the first moment  sum_{j=0..N} j pr j;  Variance likewise of the second central
+     moment;  NormalApprox.Sigma = s >= 0 with |s^2 - variance| <= 2 tol_moment_rel variance;  Bounds = (0, N)
+     and Step = 1 exactly;  and for EVERY item (k, PMF(k), CDF(k)) of the line: k is finite and, with
+     ki = floor k, |PMF - pr ki| <= tol_abs (= 1e-10) and PMF = 0 exactly outside 0..N,
+     |CDF - sum_{j=0..ki} pr j| <= tol_abs, CDF = 0 exactly for ki < 0 and CDF = 1 exactly for ki >= N;
+   - hypergeometric (N, K, n = Draws): 2 <= N, 0 <= K <= N, 0 <= n <= N; the same with
+     pr k = hg_prob N K n k = C(K,k) C(N-K,n-k) / C(N,n), lo = max(0, n+K-N), hi = min(n, K) in place of 0, N
+     (there is no NormalApprox). *)
+Theorem C06_check_ok_sound : forall line code tag pos diag cs,
+  check_C06 line = verdict code tag pos diag -> (code = 0 \/ code = 1)%Z ->
+  p_line line = Some (cs, []) -> case_ok cs.
+Proof. exact check_ok_sound. Qed.
+Print Assumptions C06_check_ok_sound.
+
+(* the hypothesis on p_line costs nothing: an accepted line always parses, completely *)
+Theorem C06_check_accepted_parses : forall line code tag pos diag,
+  check_C06 line = verdict code tag pos diag -> (code = 0 \/ code = 1)%Z -> exists cs, p_line line = Some (cs, []).
+Proof. exact check_accepted_parses. Qed.
+Print Assumptions C06_check_accepted_parses.
+
+(* the PMF / CDF part spelled out without the predicates, for every item of an accepted line *)
+Theorem C06_accepted_binomial_item : forall line code tag pos diag c kb pb cb,
+  check_C06 line = verdict code tag pos diag -> (code = 0 \/ code = 1)%Z -> p_line line = Some (CBin c, []) ->
+  In (kb, pb, cb) (b_items c) ->
+  exists k pm cd, decode_bits kb = XFin k /\ decode_bits pb = XFin pm /\ decode_bits cb = XFin cd /\
+    Qabs (pm - bin_prob (b_n c) (b_p c) (Qfloor k)) <= tol_abs /\
+    Qabs (cd - Qsum_range (bin_prob (b_n c) (b_p c)) 0 (Qfloor k)) <= tol_abs /\
+    ((Qfloor k < 0 \/ b_n c < Qfloor k)%Z -> pm == 0) /\ ((Qfloor k < 0)%Z -> cd == 0) /\ ((b_n c <= Qfloor k)%Z -> cd == 1).
+Proof. exact accepted_binomial_item. Qed.
+Print Assumptions C06_accepted_binomial_item.
+
+Theorem C06_accepted_hypergeometric_item : forall line code tag pos diag c kb pb cb,
+  check_C06 line = verdict code tag pos diag -> (code = 0 \/ code = 1)%Z -> p_line line = Some (CHg c, []) ->
+  In (kb, pb, cb) (h_items c) ->
+  let lo := Z.max 0 (h_n c + h_K c - h_N c) in let hi := Z.min (h_n c) (h_K c) in
+  exists k pm cd, decode_bits kb = XFin k /\ decode_bits pb = XFin pm /\ decode_bits cb = XFin cd /\
+    Qabs (pm - hg_prob (h_N c) (h_K c) (h_n c) (Qfloor k)) <= tol_abs /\
+    Qabs (cd - Qsum_range (hg_prob (h_N c) (h_K c) (h_n c)) lo (Qfloor k)) <= tol_abs /\
+    ((Qfloor k < lo \/ hi < Qfloor k)%Z -> pm == 0) /\ ((Qfloor k < lo)%Z -> cd == 0) /\ ((hi <= Qfloor k)%Z -> cd == 1).
+Proof. exact accepted_hypergeometric_item. Qed.
+Print Assumptions C06_accepted_hypergeometric_item.
+
 (* ---------- non-vacuity ---------- *)
 Example C06_binom_example :
   Qred (binom_pmf 5 (1 # 5) (5 # 2)) = 128 # 625 /\ Qred (binom_cdf 5 (1 # 5) (5 # 2)) = 2944 # 3125 /\
@@ -184,3 +234,26 @@ Example C06_hyperg_example :
   hg_flip_test 50 5 10 0 = false /\ Qred (hg_cdf 50 5 10 0) = 82251 # 264845 /\
   Qred (hg_mean 50 5 10) = 1 /\ Qred (hg_var 50 5 10) = 36 # 49.
 Proof. vm_compute. repeat split; try reflexivity; discriminate. Qed.
+
+(* two accepted lines of a real run (harness output on /repo): BinomialDist{3, 0.25} at k = -1, 0, 1.5, 1.5, 3, 4
+   and HypergeometicDist{6, 4, 3} at k = 0, 1, 2.5, 2.5, 3, 7; both parse completely and get verdict ok, so the
+   hypotheses of C06_check_ok_sound are satisfiable (and the repeated item exercises the skip) *)
+Example C06_check_ok_example :
+  let l1 := [6; 0; 0; 3; 0x3fd0000000000000; 0x3fe8000000000000; 0x3fe2000000000000; 0x3fe8000000000000;
+             0x3fe8000000000000; 0; 0x4008000000000000; 0x3ff0000000000000; 6;
+             0xbff0000000000000; 0; 0;   0; 0x3fdb000000000000; 0x3fdb000000000002;
+             0x3ff8000000000000; 0x3fdb000000000000; 0x3feb000000000000;
+             0x3ff8000000000000; 0x3fdb000000000000; 0x3feb000000000000;
+             0x4008000000000000; 0x3f90000000000000; 0x3ff0000000000000;
+             0x4010000000000000; 0; 0x3ff0000000000000]%Z in
+  let l2 := [6; 1; 0; 6; 4; 3; 0x4000000000000000; 0x3fd999999999999a; 0x3ff0000000000000; 0x4008000000000000;
+             0x3ff0000000000000; 6;
+             0; 0; 0;   0x3ff0000000000000; 0x3fc9999999999996; 0x3fc99999999999b0;
+             0x4004000000000000; 0x3fe333333333332f; 0x3fe999999999999a;
+             0x4004000000000000; 0x3fe333333333332f; 0x3fe999999999999a;
+             0x4008000000000000; 0x3fc9999999999996; 0x3ff0000000000000;
+             0x401c000000000000; 0; 0x3ff0000000000000]%Z in
+  check_C06 l1 = verdict V_OK 1087 (-1) [] /\ check_C06 l2 = verdict V_OK 1279 (-1) [] /\
+  (match p_line l1 with Some (CBin c, []) => b_n c = 3%Z /\ length (b_items c) = 6%nat | _ => False end) /\
+  (match p_line l2 with Some (CHg c, []) => h_N c = 6%Z /\ length (h_items c) = 6%nat | _ => False end).
+Proof. vm_compute. repeat split; reflexivity. Qed.
